@@ -58,13 +58,15 @@ type docGen struct {
 	// attribute noise for C05: decorate elements with on*/id/class/style/data-*
 	noise bool
 	// page URL given: relative media/link URLs
-	hideVariants []string
-	wrapIn       string // C03: place the generated forest inside li / blockquote / table cell
-	layoutNoise  bool   // list items / quotes / pre may carry display:inline-block (C07)
-	markupText   bool   // some texts show markup as text (C05: nothing of it may come alive)
-	inlineJunk   bool   // inline formatting elements may hold hidden spans / scripts (C04)
-	mediaSeps    bool   // separator signs (text without a word) in front of media inside a line (C08)
-	noTitle      bool   // no <title> element (C09: the word-count clause needs pages without title)
+	hideVariants  []string
+	wrapIn        string // C03: place the generated forest inside li / blockquote / table cell
+	layoutNoise   bool   // list items / quotes / pre may carry display:inline-block (C07)
+	markupText    bool   // some texts show markup as text (C05: nothing of it may come alive)
+	inlineJunk    bool   // inline formatting elements may hold hidden spans / scripts (C04)
+	blanksBetween bool   // neighbouring inline elements are kept apart by a white-space text node between them (C03, C02, C09)
+	tightInline   bool   // words may continue across the edge of an inline element (C09)
+	mediaSeps     bool   // separator signs (text without a word) in front of media inside a line (C08)
+	noTitle       bool   // no <title> element (C09: the word-count clause needs pages without title)
 }
 
 func newDocGen(seed int64, id int) *docGen {
@@ -171,7 +173,9 @@ var blockish = map[string]bool{"P": true, "DIV": true, "H": true, "UL": true, "O
 	// form controls and other replaced elements are visible boxes of their own: "alpha<input>omega" reads as two words
 	"SKF": true,
 	// a sharing box is a visible block, even though the converter leaves it out
-	"SHR": true}
+	"SHR": true,
+	// a blank between two elements (a white-space text node of its own)
+	"SP": true}
 
 // padded renders the words of a text node, without the surrounding space on a side
 // that faces a block-level neighbour (or the edge of a block-level parent): there the
@@ -186,8 +190,21 @@ func (g *docGen) padded(n *cnode, w string) string {
 	if g.rng.Intn(3) != 0 && blockish[n.rightK] {
 		right = ""
 	}
+	if g.tightInline {
+		// a word that goes on in the neighbouring inline element (a drop cap, 10<sup>th</sup>): one word of the
+		// source, which the reference and the projection read as such
+		if runsOn[n.leftK] && g.rng.Intn(2) == 0 {
+			left = ""
+		}
+		if runsOn[n.rightK] && g.rng.Intn(2) == 0 {
+			right = ""
+		}
+	}
 	return left + w + right
 }
+
+// runsOn: neighbours a word may continue into
+var runsOn = map[string]bool{"T": true, "t": true, "INL": true, "A": true, "FONT": true}
 
 // layoutStyle: list items laid out in a row, pull quotes - an inline-block (or flex) box is still a box of its own
 func (g *docGen) layoutStyle() string {
@@ -259,8 +276,22 @@ func (g *docGen) kidsHTML(n *cnode) string {
 			}
 		}
 	}
+	// two inline elements side by side are usually kept apart by a blank BETWEEN them (a text node of its own),
+	// not by blanks inside them
+	blankBefore := make([]bool, len(n.kids))
+	if g.blanksBetween {
+		for i := 1; i < len(n.kids); i++ {
+			if inlineKinds[n.kids[i-1].k] && inlineKinds[n.kids[i].k] && g.rng.Intn(2) == 0 {
+				blankBefore[i] = true
+				n.kids[i-1].rightK, n.kids[i].leftK = "SP", "SP"
+			}
+		}
+	}
 	var sb strings.Builder
-	for _, c := range n.kids {
+	for i, c := range n.kids {
+		if blankBefore[i] {
+			sb.WriteString(g.pick(" ", " ", "\n"))
+		}
 		sb.WriteString(g.render(c))
 	}
 	return sb.String()
@@ -322,7 +353,13 @@ func (g *docGen) render0(n *cnode) string {
 			inner += g.pick(`<span hidden>`+g.words(2)+`</span>`, `<span style="display:none">`+g.words(2)+`</span>`,
 				`<script>var `+g.words(1)+`;</script>`, `<em hidden>`+g.words(1)+`</em>`)
 		}
-		return g.wrap(g.pick("b", "i", "em", "strong", "span", "u", "code"), "", inner)
+		st := ""
+		if g.tightInline && g.rng.Intn(4) == 0 {
+			// an inline style that changes how the element is laid out: gone from the distilled HTML, so it must not
+			// decide where the words of the text view end either
+			st = g.pick(` style="display:inline-block"`, ` style="display: block"`, ` style="display:inline-block; float:left"`)
+		}
+		return g.wrap(g.pick("b", "i", "em", "strong", "span", "u", "code"), st, inner)
 	case "FONT":
 		return g.wrap("font", ` color="red"`, g.kidsHTML(n))
 	case "A":
